@@ -8,7 +8,8 @@
    in eager mode only the executions that feed END are compared, and nothing is compared on
    a failed eager run but the error class).
    White box: every trace must be accepted by the LTS of Model/TaskMgr.v, the LTS must end with
-   as many uncollected tasks as the harness counted, and none in batch mode.
+   as many uncollected tasks as the harness counted, and none in batch mode; the traces of the nested
+   runs (nested graph nodes have a task manager of their own) must be accepted with nothing left ([sub_ok]).
    Both together: the whole trace is replayed on the composed system of Model/RunHandoff.v
    ([conf_run]: protocol LTS + run loop; the run loop of the model decides which tasks are handed to
    the task manager, which of them synchronously, when the collector starts waiting and what is done
@@ -39,6 +40,8 @@ Record ccase := mkcase {
   c_dat : list (nid * nid);                     (* data-only edges (target, source): WithNoDirectDependency *)
   c_obs : list (robs * exec_log);
   c_traces : list trun;
+  c_sub : list (list ev);                       (* complete protocol traces of the nested runs (the task managers of
+                                                   nested graph nodes: two inner tasks 3 and 4, a batch run) *)
 }.
 
 Fixpoint val_eqb (a b : val) : bool :=
@@ -192,7 +195,17 @@ Definition trace_ok (c : ccase) (r : trun) : bool :=
    else if plain (sg_of c) then conf_ok c r
    else if is_batch c then true else eager_run_ok (sg_of c) r).
 
+(* a nested run is a batch run of its own: its trace is a run of the LTS at the end of which waitAll has
+   returned - nothing outstanding, nothing uncollected *)
+Definition sub_ok (tr : list ev) : bool :=
+  accepts tr &&
+  match trace_leftover tr with
+  | Some (lft, n) => Nat.eqb lft 0 && Nat.eqb n 0
+  | None => false
+  end.
+
 Definition bad (c : ccase) : bool :=
-  negb ((is_nil (c_graph c) || forallb (obs_ok c) (c_obs c)) && forallb (trace_ok c) (c_traces c)).
+  negb ((is_nil (c_graph c) || forallb (obs_ok c) (c_obs c)) && forallb (trace_ok c) (c_traces c) &&
+        forallb sub_ok (c_sub c)).
 
 Definition mismatches (cs : list ccase) : list nat := mismatches_from bad 0 cs.
